@@ -114,7 +114,8 @@ PROPS = {
         "lean": ["FsnVerif.Props.C10"],
         "lean_support": ["FsnVerif.Proofs.InotifyLemmas", "FsnVerif.Model.Inotify"],
         "stages": [{"name": "inject", "cmd": "inject", "what": "C10", "sessions": True},
-                   {"name": "live", "cmd": "live", "what": "C10", "sessions": True}],
+                   {"name": "live", "cmd": "live", "what": "C10", "sessions": True},
+                   {"name": "conc", "cmd": "conc", "what": "C10", "replayable": False}],
         "rule": INJECT_RULE + LIVE_RULE,
         "assumptions": ["K3: inotify_rm_watch fails only with EINVAL (mark gone) while the descriptor is open",
                         "read errors of the inotify descriptor (EOF, short read) are the runtime's and are not modelled"],
